@@ -669,8 +669,15 @@ def generate(chk, variant, families, nq, ntr):
 
 def run(chk):
     quick = chk.tier == "quick"
-    ok, log = chk.prove(["extract/Extract_C02.vo", "extract/Extract_ED.vo"])
+    ok, log = chk.prove(["extract/Extract_C02.vo", "extract/Extract_ED.vo"], extra_props=["Properties_C02_source.v"])
     chk.trusted += ["translator/gen_c02.py and translator/cexpr.py",
+                    "translator/gen_lehmann.py with translator/cstmt.py (statement splitter + shape recognition): reads, one generated file per C++ function, "
+                    "the control structure of chaseIndices, TwoParticleGFPart::compute (loop nest, index list, innermost body), addMultiterm, the two "
+                    "operator+=, TermList::add_term / operator(), TwoParticleGFPart::operator(), TwoParticleGF::operator(), TwoParticleGF::compute and "
+                    "ComputeAndClearWrap::run (coq/gen/Gen_Leh*.v in the vocabulary coq/theories/LehmannShapes.v, interpreted by coq/theories/LehmannInterp.v "
+                    "and the slice-walk interpreter of coq/theories/LehmannGenChi.v); Properties_C02_source.v = the agreement with coq/theories/Chi.v and the "
+                    "theorems about the interpreted source. TwoParticleGF::compute is tied as a description (order, guards, broadcast roots) and through the "
+                    "two switches of Chi.gf_compute_gen only: the MPI distribution itself is not interpreted",
                     "extraction: ExtrOcamlBasic, ExtrOcamlNatInt, ExtrOCamlFloats; no Extract Constant of our own",
                     "ocaml/driver_c02.ml (parsing, building the model input from the dump, printing, tolerance scales), harness/h_c02.cpp, harness/ed_common.h",
                     "the oracle: coq/theories/EDSpec.v (chi, phi) extracted to ED_model.ml, ocaml/driver_ed.ml, tools/edlib.py",
